@@ -196,15 +196,40 @@ def _rows_canon(rows: Any) -> Any:
     return [tuple(_canon(v) for v in r) for r in rows]
 
 
+_posts = {"n": 0}
+
+
+def _count_query_posts() -> None:
+    """Count the connector's HTTP attempts at query-request: more than one attempt for one execute() is a transport-level
+    retry of the connector (the statement may then have been executed twice by the server), not an answer of the fake."""
+    from snowflake.connector.network import SnowflakeRestful
+
+    if getattr(SnowflakeRestful, "_fsverif_counted", False):
+        return
+    orig = SnowflakeRestful._request_exec_wrapper
+
+    def wrapper(self: Any, session: Any, method: str, full_url: str, *a: Any, **k: Any) -> Any:
+        if "query-request" in full_url:
+            _posts["n"] += 1
+        return orig(self, session, method, full_url, *a, **k)
+
+    SnowflakeRestful._request_exec_wrapper = wrapper
+    SnowflakeRestful._fsverif_counted = True
+
+
 def _run_remote(sql: str) -> dict:
+    _count_query_posts()
     cur = _state["http"].cursor()
     out: dict[str, Any] = {}
+    n0 = _posts["n"]
     try:
         cur.execute(sql)
     except Exception as e:  # noqa: BLE001
         out["ok"] = False
         out["exc"] = core.exc_info(e)
+        out["retried"] = _posts["n"] - n0 > 1
         return out
+    out["retried"] = _posts["n"] - n0 > 1
     out["ok"] = True
     out["rowcount"] = cur.rowcount
     try:
@@ -240,6 +265,12 @@ def _compare(env: core.Env, sql: str, kind: str, types: list | None = None) -> b
         return True
     env.count("http_statements")
     ro = _run_remote(sql)
+    if _posts["n"] == 0:
+        raise core.Inconclusive("the retry monitor saw no query-request although a statement was executed over HTTP")
+    if ro.get("retried"):
+        # the connector re-sent the request (timeout / reset connection on a loaded machine): nothing to compare
+        env.count("transport_retries_discarded")
+        return False
     head = sql.split()[0].upper()
     if lo["ok"] != ro["ok"]:
         env.witness(f"C17/success-differs/{kind}/{head}", f"{sql[:300]!r}: in-process ok={lo['ok']} {lo.get('exc')} ; http ok={ro['ok']} {ro.get('exc')}"[:900])
